@@ -1,11 +1,17 @@
 pub mod common;
 pub mod c05;
+pub mod c08;
+pub mod c12;
+pub mod c13;
 
 use crate::spec::Scenario;
 
 pub fn scenario(id: &str) -> Option<Box<dyn Scenario>> {
     match id {
         "C05" => Some(Box::new(c05::C05)),
+        "C08" => Some(Box::new(c08::C08)),
+        "C12" => Some(Box::new(c12::C12)),
+        "C13" => Some(Box::new(c13::C13)),
         _ => None,
     }
 }
